@@ -32,11 +32,10 @@ def bulkLoop {S B O : Type} (iter : S → List B → S × List O × Nat) (s : S)
   match buf with
   | [] => (s, [])
   | b :: bs =>
-    let r := iter s (b :: bs)
-    if _h : r.2.2 = 0 then (r.1, r.2.1)
+    if _h : (iter s (b :: bs)).2.2 = 0 then ((iter s (b :: bs)).1, (iter s (b :: bs)).2.1)
     else
-      let r2 := bulkLoop iter r.1 ((b :: bs).drop r.2.2)
-      (r2.1, r.2.1 ++ r2.2)
+      let r2 := bulkLoop iter (iter s (b :: bs)).1 ((b :: bs).drop (iter s (b :: bs)).2.2)
+      (r2.1, (iter s (b :: bs)).2.1 ++ r2.2)
 termination_by buf.length
 decreasing_by simp only [List.length_drop, List.length_cons]; omega
 
@@ -50,7 +49,7 @@ inductive IpcErr
   deriving DecidableEq, Repr
 
 /-- The flatbuffer / array layer, abstract: `parseMeta` = `MessageBuffer::try_new` followed by
-`bodyLength()`; `handle ctx meta body` = the `match message.header_type()` block of
+`bodyLength()`; `handle ctx md body` = the `match message.header_type()` block of
 `StreamDecoder::decode` (schema, dictionaries kept in `ctx`; a record batch is an output). -/
 structure IpcParams (P O : Type) where
   parseMeta : Bytes → Option Nat
@@ -61,7 +60,7 @@ in `Message` and `Body`). `header buf cont`: `buf` = the first `read` bytes of `
 inductive IpcPhase
   | header (buf : Bytes) (cont : Bool)
   | message (size : Nat) (buf : Bytes)
-  | body (meta : Bytes) (bodyLen : Nat) (buf : Bytes)
+  | body (md : Bytes) (bodyLen : Nat) (buf : Bytes)
   | finished
   | failed (e : IpcErr)
   deriving DecidableEq, Repr
@@ -82,14 +81,14 @@ def headerDone {P : Type} (ctx : P) (buf : Bytes) (cont : Bool) : IpcState P :=
   else ⟨.message (leVal buf) [], ctx⟩
 
 /-- `MessageBuffer::try_new(..)?; self.state = DecoderState::Body { message }` -/
-def messageDone {P O : Type} (pr : IpcParams P O) (ctx : P) (meta : Bytes) : IpcState P :=
-  match pr.parseMeta meta with
+def messageDone {P O : Type} (pr : IpcParams P O) (ctx : P) (md : Bytes) : IpcState P :=
+  match pr.parseMeta md with
   | none => ⟨.failed .badMeta, ctx⟩
-  | some bl => ⟨.body meta bl [], ctx⟩
+  | some bl => ⟨.body md bl [], ctx⟩
 
 /-- the body is complete: `match message.header_type() { … }`, then `DecoderState::default()` -/
-def bodyDone {P O : Type} (pr : IpcParams P O) (ctx : P) (meta body : Bytes) : IpcState P × List O :=
-  match pr.handle ctx meta body with
+def bodyDone {P O : Type} (pr : IpcParams P O) (ctx : P) (md body : Bytes) : IpcState P × List O :=
+  match pr.handle ctx md body with
   | .error c => (⟨.failed (.handler c), ctx⟩, [])
   | .ok r => (⟨.header [] false, r.1⟩, r.2)
 
@@ -124,11 +123,11 @@ buffer: that second iteration is `ipcIterNoBody`. -/
 def ipcIter {P O : Type} (pr : IpcParams P O) (s : IpcState P) (buffer : Bytes) :
     IpcState P × List O × Nat :=
   match s.ph with
-  | .body meta bl buf =>
+  | .body md bl buf =>
     if ¬ buf.isEmpty ∧ bl ≤ buf.length then (⟨.failed .stuck, s.ctx⟩, [], 0) else
     if buf.isEmpty ∧ buffer.length ≥ bl then
       -- zero-copy body
-      let r := bodyDone pr s.ctx meta (buffer.take bl)
+      let r := bodyDone pr s.ctx md (buffer.take bl)
       if bl = 0 then
         let r2 := ipcIterNoBody pr r.1 buffer
         (r2.1, r.2 ++ r2.2.1, r2.2.2)
@@ -136,9 +135,9 @@ def ipcIter {P O : Type} (pr : IpcParams P O) (s : IpcState P) (buffer : Bytes) 
     else
       let toRead := min buffer.length (bl - buf.length)
       let buf' := buf ++ buffer.take toRead
-      if buf'.length ≠ bl then (⟨.body meta bl buf', s.ctx⟩, [], toRead)
+      if buf'.length ≠ bl then (⟨.body md bl buf', s.ctx⟩, [], toRead)
       else
-        let r := bodyDone pr s.ctx meta buf'
+        let r := bodyDone pr s.ctx md buf'
         (r.1, r.2, toRead)
   | _ => ipcIterNoBody pr s buffer
 
@@ -164,14 +163,14 @@ def ipcStepNoBody {P O : Type} (pr : IpcParams P O) (s : IpcState P) (b : Nat) :
 /-- byte-at-a-time reference transducer for the IPC stream decoder -/
 def ipcStep {P O : Type} (pr : IpcParams P O) (s : IpcState P) (b : Nat) : IpcState P × List O :=
   match s.ph with
-  | .body meta bl buf =>
+  | .body md bl buf =>
     if ¬ buf.isEmpty ∧ bl ≤ buf.length then (⟨.failed .stuck, s.ctx⟩, []) else
     if bl = 0 then
-      let r := bodyDone pr s.ctx meta []
+      let r := bodyDone pr s.ctx md []
       let r2 := ipcStepNoBody pr r.1 b
       (r2.1, r.2 ++ r2.2)
-    else if (buf ++ [b]).length ≠ bl then (⟨.body meta bl (buf ++ [b]), s.ctx⟩, [])
-    else bodyDone pr s.ctx meta (buf ++ [b])
+    else if (buf ++ [b]).length ≠ bl then (⟨.body md bl (buf ++ [b]), s.ctx⟩, [])
+    else bodyDone pr s.ctx md (buf ++ [b])
   | _ => ipcStepNoBody pr s b
 
 /-- verdict of `StreamDecoder::finish` (or of the first error, which is sticky) -/
@@ -211,14 +210,16 @@ def vlqByte (v : Vlq) (b : Nat) : VlqRes :=
     if b &&& VLQ_CONT_BIT = 0 then .done (zigzag acc)
     else .more ⟨acc, v.shift + VLQ_SHIFT_STEP⟩
 
-/-- `VLQDecoder::long(&mut buf)`: result and number of bytes consumed -/
+/-- `VLQDecoder::long(&mut buf)`: result and number of bytes consumed.  (On the error return the
+Rust code leaves the offending byte unconsumed; errors are fatal, so counting it as consumed
+is unobservable and keeps "consumed = 0" to mean "halt" only in `failed` states.) -/
 def vlqLong (v : Vlq) : Bytes → VlqRes × Nat
   | [] => (.more v, 0)
   | b :: bs =>
     match vlqByte v b with
     | .more v' => let r := vlqLong v' bs; (r.1, r.2 + 1)
     | .done x => (.done x, 1)
-    | .err => (.err, 0)
+    | .err => (.err, 1)
 
 /-! ## Avro `BlockDecoder` (arrow-avro/src/reader/block.rs) with the `flush` that
 `Reader::read` performs right after every `decode` -/
@@ -259,7 +260,7 @@ def afterSize (count : Nat) (x : Int) : BlkState :=
 
 /-- `BlockDecoderState::Sync` iteration followed (when complete) by `Finished` + `flush()` -/
 def blkIterSync (count : Nat) (data sync : Bytes) (rem : Nat) (buf : Bytes) : BlkState × List Block × Nat :=
-  if rem = 0 then (.failed .stuck, [], 0) else
+  if rem = 0 ∨ AVRO_SYNC_OFFSET_BASE < rem then (.failed .stuck, [], 0) else
   let toDecode := min buf.length rem
   let offset := AVRO_SYNC_OFFSET_BASE - rem
   let sync' := writeAt sync offset (buf.take toDecode)
@@ -295,7 +296,7 @@ def blkIter (s : BlkState) (buf : Bytes) : BlkState × List Block × Nat :=
 def blkFeed (s : BlkState) (chunk : Bytes) : BlkState × List Block := bulkLoop blkIter s chunk
 
 def blkStepSync (count : Nat) (data sync : Bytes) (rem : Nat) (b : Nat) : BlkState × List Block :=
-  if rem = 0 then (.failed .stuck, []) else
+  if rem = 0 ∨ AVRO_SYNC_OFFSET_BASE < rem then (.failed .stuck, []) else
   let sync' := writeAt sync (AVRO_SYNC_OFFSET_BASE - rem) [b]
   if rem - 1 = 0 then (blkInit, [⟨count, data, sync'⟩])
   else (.sync count data sync' (rem - 1), [])
